@@ -26,14 +26,19 @@ Ftp::ParseIpPort(const char *buf, const char *forceIp, Ip::Address &addr)
         return false;
 
     // sscanf("%d") wraps huge numbers into range; such components are never valid
-    for (const char *c = buf; *c; ++c) {
+    const char *c = buf;
+    for (int i = 0; i < 6; ++i) {
+        while (xisspace(*c))
+            ++c;
+        if (*c == '+' || *c == '-')
+            ++c;
         const char *digits = c;
         while (xisdigit(*c))
             ++c;
         if (c - digits > 3)
             return false; // each of the six components is at most 255
-        if (!*c)
-            break;
+        if (*c == ',')
+            ++c;
     }
 
     if (h1 < 0 || h2 < 0 || h3 < 0 || h4 < 0 || h1 > 255 || h2 > 255 || h3 > 255 || h4 > 255)
